@@ -182,7 +182,7 @@ def siblings(ctx, obs, rule='SIB'):
     spl = [c for c in ast.walk(f.node) if isinstance(c, ast.Call) and _leaf(c.func) == 'split']
     for c in spl:
         ok = len(c.args) == 2 and 'arange(n_centers)' in norm(c.args[0]).replace('np.', '')
-        obs.check(ok, rule, q, 'chunks partition arange(n_centers)', f'`{norm(c)[:80]}`', '', where(prog, f, c))
+        obs.soft(ok, rule, q, 'chunks partition arange(n_centers)', f'`{norm(c)[:80]}`', '', where(prog, f, c))
 
 
 def forwarding(ctx, obs, rule='FWD'):
